@@ -85,7 +85,8 @@ REQUIRED_CLAUSES = ["args-unchanged", "module-tables-unchanged",
                     "reused-argument-objects", "results-own-their-state",
                     "result-is-not-an-argument-object", "public-api-present",
                     "interleaved-calls==sequential", "int-form==float-form",
-                    "args-unchanged-during-call"]
+                    "args-unchanged-during-call",
+                    "independent-of-decimal-context"]
 
 
 # ------------------------------------------------------------------ discovery
@@ -412,9 +413,11 @@ def gen_param(rng, qual, p):
     if base in ("rho_sinphi", "rho_cosphi") and p == "height":
         return rng.choice((0.0, 1706.0, 8000))
     if base == "distance" and qual.startswith("Earth."):
-        return {"lon1": rng.uniform(-180, 180), "lat1": rng.uniform(-89, 89),
-                "lon2": rng.uniform(-180, 180), "lat2": rng.uniform(-89, 89)
-                }[p]
+        v = {"lon1": rng.uniform(-180, 180), "lat1": rng.uniform(-89, 89),
+             "lon2": rng.uniform(-180, 180), "lat2": rng.uniform(-89, 89)
+             }[p]
+        # number or Angle, each argument on its own
+        return rng.choice((v, Angle(v), float(int(v)), int(v)))
     if base in ("rho", "rp", "rm", "linear_velocity") and p == "latitude":
         return rng.choice((rng.uniform(-90, 90), g_angle(rng, -90, 90)))
     if qual.startswith("Earth.Earth.rho_") and p == "latitude":
@@ -925,8 +928,37 @@ class Universe(object):
         self.scribble(target, res, rs, args, inst)
         self.reuse(target, args, inst)
         self.intform(target, args, inst)
+        self.ambient(target, args2, inst2, rs)
         self.quiesce()
         return rs
+
+    def ambient(self, target, args2, inst2, rs):
+        """The interpreter-wide numeric context is not an argument: with the
+        thread's decimal context set to 3 digits, rounding down (as a host
+        application may have done for its own purposes), the call returns
+        what it returned under the default context."""
+        if self.rng.random() > 0.15 or target[3] == "__init__":
+            return
+        import decimal
+        mon = self.mon
+        a = copy.deepcopy(args2)
+        i = copy.deepcopy(inst2)
+        mon.evals += 1
+        self.calls += 1
+        try:
+            with decimal.localcontext() as ctx:
+                ctx.prec = 3
+                ctx.rounding = decimal.ROUND_DOWN
+                r = ap(getattr(i, target[3]) if i is not None
+                       else resolve(target)[0], a)
+            got = snap(r)
+        except Exception as ex:
+            got = ("raised", repr(ex))
+        mon.cls("call-under-3-digit-decimal-context", (target[0], snap(a)))
+        mon.check("independent-of-decimal-context", got == rs,
+                  lambda: {"target": target[0], "args": a,
+                           "default_context": repr(rs)[:300],
+                           "prec=3": repr(got)[:300]})
 
     _INTDOC = {}
 
